@@ -94,6 +94,10 @@ Fixpoint replace_nth {A} (n : nat) (x : A) (l : list A) : list A :=
   | y :: r, S k => y :: replace_nth k x r
   end.
 
+(* the list a slice holds after  s[n] = v : in place, or grown with the element type's zero value *)
+Definition slice_store (l : list value) (n : nat) (v zero : value) : list value :=
+  if (n <? length l)%nat then replace_nth n v l else l ++ repeat zero (n - length l) ++ [v].
+
 Definition set_slice (id : nat) (l : list value) : R unit :=
   fun s => Done tt (mkS (s_globals s) (s_frame s) (replace_nth id l (s_heap s)) (s_funcs s) (s_files s) (s_out s)).
 
@@ -283,10 +287,7 @@ Section Run.
             | VSlice id, VInt i =>
                 if i <? 0 then undef else
                 l <- get_slice id ;;
-                let n := Z.to_nat i in
-                let l' := if (n <? length l)%nat then replace_nth n vv l
-                          else l ++ repeat (zero_of (dt (type_of val))) (n - length l) ++ [vv] in
-                set_slice id l' ;;; rret SigNext
+                set_slice id (slice_store l (Z.to_nat i) vv (zero_of (dt (type_of val)))) ;;; rret SigNext
             | _, _ => undef
             end
         | SFunc name _ params body _ =>
